@@ -9,7 +9,7 @@
     audited table."""
 import os
 import re
-from .mirlib import call_info, strip, strip_casts, fmt, short
+from .mirlib import call_info, strip, strip_casts, fmt, short, _INT_FROM
 
 INT_RANGES = {
     'u8': (0, 2 ** 8 - 1), 'u16': (0, 2 ** 16 - 1), 'u32': (0, 2 ** 32 - 1), 'u64': (0, 2 ** 64 - 1),
@@ -509,6 +509,13 @@ class Intervals:
                     if fn.endswith('::len') and self.lty(p['l']) == 'usize' and (
                             'slice' in fn or 'Vec' in fn or 'str' in fn):
                         rng = LEN_RANGE
+                    elif _INT_FROM.search(info.get('res') or fn) and len(t['args']) == 1:
+                        # lossless integer conversion (usize::from(x), x.into()): the value of the argument
+                        v = self.operand(st, t['args'][0])
+                        if v is None:
+                            v = ty_range(self.operand_ty(t['args'][0]))
+                        if v is not None and v[0] not in ('ovf', 'tup'):
+                            rng = clip(v, rng)
                 if rng is None:
                     s2['L'].pop(p['l'], None)
                 else:
@@ -716,6 +723,9 @@ def canon_expr(body, o, names=None):
 
 
 CANON_V3 = os.environ.get('VERIF_PO_CANON', 'new') not in ('old', 'v2')
+CANON_V4 = os.environ.get('VERIF_PO_CANON', 'new') not in ('old', 'v2', 'v3')
+COMMUTATIVE_BIN = ('Add', 'Mul', 'BitAnd', 'BitOr', 'BitXor', 'Eq', 'Ne', 'AddUnchecked', 'MulUnchecked')
+COMMUTATIVE_CALLS = ('min', 'max', 'wrapping_add', 'wrapping_mul')
 
 
 def _var(names, text):
@@ -776,19 +786,29 @@ def canon_fmt(e, names):
     if k == 'downcast':
         return '(%s as %s)' % (canon_fmt(e[1], names), e[2])
     if k == 'bin':
-        return '%s(%s,%s)' % (e[1].replace('WithOverflow', ''), canon_fmt(e[2], names), canon_fmt(e[3], names))
+        a_, b_ = canon_fmt(e[2], names), canon_fmt(e[3], names)
+        op = e[1].replace('WithOverflow', '')
+        if CANON_V4 and op in COMMUTATIVE_BIN and b_ < a_:
+            a_, b_ = b_, a_        # operand order of a commutative operation is not part of the identity
+        return '%s(%s,%s)' % (op, a_, b_)
     if k == 'un':
         return '%s(%s)' % (e[1], canon_fmt(e[2], names))
     if k == 'cast':
         return canon_fmt(e[1], names)
     if k == 'call':
         from .mirlib import short
-        return '%s(%s)' % (short(e[1]), ','.join(canon_fmt(a, names) for a in e[2]))
+        args = [canon_fmt(a, names) for a in e[2]]
+        if CANON_V4 and len(args) == 2 and (e[1] or '').rsplit('::', 1)[-1] in COMMUTATIVE_CALLS:
+            args.sort()
+        return '%s(%s)' % (short(e[1]), ','.join(args))
     if k == 'fnconst':
         from .mirlib import short
         return short(e[1])
     if k == 'agg':
         from .mirlib import short
+        if CANON_V4 and e[1] == 'closure':
+            # a closure literal is identified by what it captures, not by the function it happens to be written in
+            return 'closure{%s}' % ','.join(canon_fmt(a, names) for a in e[3])
         return '%s{%s}' % (short(e[2]), ','.join(canon_fmt(a, names) for a in e[3]))
     return '?'
 
@@ -931,7 +951,10 @@ def _obligations(body, ia=None):
                 ops = 'idx=%s,len=%s' % (canon_expr(body, m['index'], names), canon_expr(body, m['len'], names))
             elif kind == 'overflow':
                 kind = 'overflow-' + m['op'].lower()
-                ops = '%s,%s' % (canon_expr(body, m['a'], names), canon_expr(body, m['b'], names))
+                oa, ob = canon_expr(body, m['a'], names), canon_expr(body, m['b'], names)
+                if CANON_V4 and m['op'] in ('Add', 'Mul') and ob < oa:
+                    oa, ob = ob, oa
+                ops = '%s,%s' % (oa, ob)
             elif kind in ('divzero', 'remzero', 'overflow_neg'):
                 ops = canon_expr(body, m['a'], names)
             else:
